@@ -10,6 +10,13 @@ import (
 
 // CommonType returns a type that both a and b are assignable to
 func commonType(a px.Type, b px.Type) px.Type {
+	// Unit, the element type of the empty Array and Hash types, has no instance of its own: the other type is the bound
+	if _, ok := a.(*UnitType); ok {
+		return b
+	}
+	if _, ok := b.(*UnitType); ok {
+		return a
+	}
 	if isAssignable(a, b) {
 		return a
 	}
